@@ -34,6 +34,9 @@ type c13Cell struct {
 }
 
 func c13Expected(mode, existing string) string {
+	if existing == "rest-created" { // a document that the REST patch endpoint created: an existing datatype of the same type
+		existing = "same"
+	}
 	switch mode {
 	case "create":
 		if existing == "none" {
@@ -120,7 +123,21 @@ func c13Run(cell c13Cell) (nontrivial bool, err error) {
 	k := w.keys[0]
 	actorKind := cell.Kind
 	// existing datatype
-	if cell.Existing != "none" {
+	if cell.Existing == "rest-created" {
+		// the key holds a document that nobody but the REST patch endpoint has ever touched
+		patchesHappened = true
+		for i := 0; i <= cell.PriorOps/3; i++ {
+			if _, err, to := w.env.PatchDocument(&model.PatchMessage{Collection: w.col, Key: k.Name, Json: fmt.Sprintf(`{"by":"rest","n":%d,"l":[1,2]}`, i)}, l1Deadline); err != nil || to {
+				return false, fmt.Errorf("HARNESS-ERROR: cannot create the document through the REST endpoint: err=%v timeout=%v", err, to)
+			}
+		}
+		w.env.WaitBackground(3 * time.Second)
+		for _, dd := range w.datatypeDocs() {
+			if bstr(bget(dd, "key")) == k.Name {
+				k.created, k.duid = true, bstr(bget(dd, "_id"))
+			}
+		}
+	} else if cell.Existing != "none" {
 		if cell.Existing == "other" {
 			k.Kind = otherKind(cell.Kind)
 		}
@@ -422,6 +439,9 @@ func TestC13Random(t *testing.T) {
 			PriorOps: rapid.SampledFrom([]int{0, 1, 3, 10, 40}).Draw(rt, "prior"),
 			IDSeed:   rapid.Uint64Range(1, 1<<40).Draw(rt, "idseed"),
 		}
+		if cell.Kind == sim.Document && cell.Existing == "same" && rapid.Bool().Draw(rt, "rest_created") {
+			cell.Existing = "rest-created"
+		}
 		if cell.Racer != "none" {
 			cell.RaceOrder = rapid.SampledFrom([]string{"actor-first", "racer-first", "concurrent"}).Draw(rt, "order")
 		} else {
@@ -448,7 +468,7 @@ func TestC13Random(t *testing.T) {
 // and the request repeated, with and without operations made before it.
 func TestC13Retry(t *testing.T) {
 	col := stats.New("C13", t.Name(),
-		"EXHAUSTIVE sub-matrix: entry mode x existing datatype {none, same type, other type} x {0, 2} operations made on the new datatype before the entry request x 4 kinds; the server processes the entry request, its answer is LOST, the client repeats the request and handles that answer; "+
+		"EXHAUSTIVE sub-matrix: entry mode x existing datatype {none, same type, other type, (documents) created by the REST patch endpoint} x {0, 2} operations made on the new datatype before the entry request x 4 kinds; the server processes the entry request, its answer is LOST, the client repeats the request and handles that answer (for a REST-created document also without the loss); "+
 			"oracle as TestC13Matrix: a refusal stays a refusal (error handler, store unchanged by the repetition), a client whose first request created or subscribed ends up SUBSCRIBED with exactly one state-change event, and if the repeated request is answered as a subscription its first state equals refmodel(log[1..S]) - including its own operations that the first request stored; "+
 			"non-trivial = the first request was accepted; distinct = the cell")
 	defer col.Flush()
@@ -456,13 +476,16 @@ func TestC13Retry(t *testing.T) {
 	i := 0
 	for _, kind := range sim.AllKinds {
 		for _, m := range []string{"create", "subscribe", "subscribe-or-create"} {
-			for _, ex := range []string{"none", "same", "other"} {
+			for _, ex := range []string{"none", "same", "other", "rest-created"} {
+				if ex == "rest-created" && kind != sim.Document {
+					continue
+				}
 				for _, own := range []int{0, 2} {
 					i++
 					if i%nshards != shard {
 						continue
 					}
-					cell := c13Cell{Mode: m, Existing: ex, Racer: "none", Kind: kind, PriorOps: 3, OwnOps: own, LostResponse: true, IDSeed: uint64(9000 + i)}
+					cell := c13Cell{Mode: m, Existing: ex, Racer: "none", Kind: kind, PriorOps: 3, OwnOps: own, LostResponse: ex != "rest-created" || own == 2, IDSeed: uint64(9000 + i)}
 					_, err := c13Run(cell)
 					if err != nil {
 						j := &Journal{Property: "C13", Test: t.Name(), Header: cell}
